@@ -142,7 +142,10 @@ def check_chain(bound):
         except SyntaxError:
             continue
         sigs.append((ns['f'], list(P) + list(R) + list(D), list(K) + list(L)))
-    subsets = [list(c) for r in range(len(alpha) + 1) for c in itertools.combinations(alpha, r)]
+    # provides tuples in every order (a def line that re-orders them cross-wires positional next(...) calls)
+    subsets = [list(p) for r in range(len(alpha) + 1) for c in itertools.combinations(alpha, r)
+               for p in itertools.permutations(c)]
+    subsets.sort(key=lambda x: (len(x), x != sorted(x), x))
     n = 0
     modes = {'args': True, 'argnames': True}
     bad = []
@@ -151,7 +154,7 @@ def check_chain(bound):
     small = [s for s in sigs if len(s[1]) + len(s[2]) <= 1] + sigs[-3:]
     for depth in range(1, bound['depth'] + 1):
         cat = sigs if depth <= bound['full_depth'] else small
-        psets = subsets if depth <= bound['full_depth'] else subsets[:4]
+        psets = subsets if depth <= bound['full_depth'] else [subsets[0], subsets[1], subsets[-1], subsets[-2]]
         total = (len(cat) ** depth) * (len(psets) ** depth)
         stride = max(1, total // bound['budget_per_depth'])
         combos = itertools.product(itertools.product(cat, repeat=depth), itertools.product(psets, repeat=depth))
